@@ -122,6 +122,20 @@ Theorem C03_inert_capabilities : forall X F, fx_ehlo_replace F = true ->
 Proof. exact SmtpSendInertProofs.inert_capability_added. Qed.
 Print Assumptions C03_inert_capabilities.
 
+(* nil entries of a batch are skipped (the run is that of the non-nil messages: all theorems above apply to it) and
+   the results stay aligned with the positions of the batch: a nil entry reports nothing, every message gets exactly
+   its own result.  T1: the send loop ranges over [messages] itself and stores the error at messages[id]. *)
+Theorem C03_nil_entries_aligned : forall oms rs, length rs = length (somes oms) ->
+  length (align oms rs) = length oms /\
+  (forall k, nth_error oms k = Some None -> nth_error (align oms rs) k = Some (mkRes None false None)) /\
+  SmtpSendProgramsProofs.pick oms (align oms rs) = rs.
+Proof. exact SmtpSendProgramsProofs.align_spec. Qed.
+Print Assumptions C03_nil_entries_aligned.
+
+Theorem C03_source_send_loop_indexes_batch : VerifGen.Gen.send_loop_indexes_batch = true.
+Proof. exact gen_send_loop_indexes_batch. Qed.
+Print Assumptions C03_source_send_loop_indexes_batch.
+
 (* Concurrent Send calls on one dialled Client.  Client.Send holds sendMutex across SendWithSMTPClient (T1 below,
    from the lock program the locks engine extracts; mutual exclusion itself is C13_shared_conn_exclusive), so two
    racing Send calls are their sequential composition in either order, and then the commit log still consists of
